@@ -82,6 +82,48 @@ def forall_check_loops(P, F, sk):
     return out
 
 
+def rejecting_predicates(P, F):
+    """file-local functions H whose call is a branch condition of F such that a non-zero result cannot reach a success
+    return of F, while the branch lies on the way to every success return: `if(posts_have_duplicates(..))goto err_out;`.
+    A universally quantified check that was moved into H still gates F's success.  -> [(H, call eid)]"""
+    dom = cfg.dominators(F)
+    sblocks = {F.pos[r][0] for r in success_returns(F)}
+    out = []
+    for b, blk in F.blocks.items():
+        t = blk.get('term')
+        if not t or t.get('cond') is None or len(blk['succs']) != 2:
+            continue
+        if not all(b in dom[sb] for sb in sblocks):
+            continue
+        c = F.strip_casts(t['cond'])
+        pol = True
+        while F.ex[c]['k'] == 'un' and F.ex[c]['op'] == '!':
+            c = F.strip_casts(F.ex[c]['c'][0])
+            pol = not pol
+        nd = F.ex[c]
+        if nd['k'] == 'bin' and nd['op'] in ('!=', '==') and common.is_zero(F, nd['c'][1]):
+            pol = pol if nd['op'] == '!=' else not pol
+            c = F.strip_casts(nd['c'][0])
+            nd = F.ex[c]
+        if nd['k'] != 'call' or 'd' not in nd['callee']:
+            continue
+        H = P.get(nd['callee']['d'], F)
+        if H is None or not H.static or H.d.get('ret_t', '').endswith('*'):
+            continue
+        s = blk['succs'][0 if pol else 1]
+        if s is not None and not any(reaches(F, s, sb) for sb in sblocks):
+            out.append((H, c))
+    return out
+
+
+def forall_checks_deep(P, F, sk):
+    """forall_check_loops of F and of its rejecting predicate helpers: [(function, header, cond, polarity, canon)]"""
+    out = [(F, h, c, pol, s) for (h, c, pol, s) in forall_check_loops(P, F, sk)]
+    for H, call in rejecting_predicates(P, F):
+        out += [(H, h, c, pol, s) for (h, c, pol, s) in forall_check_loops(P, H, sk)]
+    return out
+
+
 def init_reaching(F, vid, at):
     """the declaration initialiser of local `vid` if it is the only definition that can reach node `at` (every other
     modification of the variable is dominated by `at`, i.e. happens later)"""
@@ -184,17 +226,22 @@ def g_res0_unpack(chk, P, D, sk):
 
 
 def g_floor1_unique_posts(chk, P, D, sk):
+    import k2
     F = P.need('floor1_unpack')
-    loops = forall_check_loops(P, F, sk)
-    hit = [(h, c, s) for (h, c, pol, s) in loops if pol and '==' in s and '-1)]' in s and s.count('*') >= 2]
-    # the compared pointers were sorted: a qsort call dominates the loop
-    dom = cfg.dominators(F)
+    loops = forall_checks_deep(P, F, sk)
+    hit = [(G, h, c, s) for (G, h, c, pol, s) in loops if pol and '==' in s and '-1)]' in s and s.count('*') >= 2]
+    # the compared pointers were sorted: a qsort call (or a helper that performs it on every path) dominates the loop
+    sorters = k2.must_do(P, k2.s_call('qsort'))
     ok = False
-    for h, c, s in hit:
-        for q in F.calls('qsort'):
-            if F.pos[q][0] in dom[h]:
+    for G, h, c, s in hit:
+        dom = cfg.dominators(G)
+        for q in G.calls():
+            nd = G.ex[q]
+            d = nd['callee'].get('d')
+            H = P.get(d, G) if d else None
+            if (d == 'qsort' or (H is not None and P.key(H) in sorters)) and G.pos[q][0] in dom[h]:
                 ok = True
-    chk.ob(RULE, 'floor1_unpack', 'unique-posts', ok, F.where(hit[0][1]) if hit else F.where(),
+    chk.ob(RULE, 'floor1_unpack', 'unique-posts', ok, hit[0][0].where(hit[0][2]) if hit else F.where(),
            'adjacent elements of the sorted post list are compared for every post and equality is rejected before the success '
            'return: x1-x0 >= 1 in render_point/render_line' if ok else
            'no sorted-adjacent duplicate check dominates the success return: a repeated post position gives adx == 0 '
@@ -501,7 +548,17 @@ def g_rejected_block(chk, P, D, sk):
     for fn in ('vorbis_synthesis', 'vorbis_synthesis_trackonly'):
         F = P.need(fn)
         pid = F.params[0]['id']
-        A, h = k2.analyse(P, F, [('arena_reset', k2.is_call('_vorbis_block_ripcord'), True)], field_inv=D.field_inv_for(P.key(F)))
+        def post_call(A_, env, e, r):
+            # return-value ranges of internal callees from the cross-function analysis (a helper that reports the error code)
+            tg = P.call_targets(A_.F, e)
+            if not tg or any(t not in D.rets for t in tg):
+                return None
+            out = None
+            for t in tg:
+                out = absint.join(out, D.rets[t])
+            return V(out.lo, out.hi) if out is not None else None
+        A, h = k2.analyse(P, F, [('arena_reset', k2.event(P, k2.s_call('_vorbis_block_ripcord'), 'may'), True)],
+                          field_inv=D.field_inv_for(P.key(F)), post_call=post_call)
         bad, n = [], 0
         for (e, fl, v, env) in k2.ret_value_classes(A):
             if v is None or v.hi >= 0 or 'arena_reset' not in fl:
